@@ -47,7 +47,7 @@ def run (t : Tier) : Emit Unit := do
   -- PAT / PMT are returned by the call that reads their final packet (no read-ahead), explicit and auto-detected size
   for i in [0:60 * t.scale] do
     let npes ← liftGen (randRange 1 3)
-    let m ← liftGen (genStream { pesPIDs := (List.range npes).map (0x100 + ·), pmtPIDs := [0x1000, 0x1001], dvb := false, unitsPerPID := 2, multiPMT := 3, longPMT := i % 3 = 0 })
+    let m ← liftGen (genStream { pesPIDs := (List.range npes).map (0x100 + ·), pmtPIDs := [0x1000, 0x1001], dvb := false, unitsPerPID := 2, multiPMT := 3, longPMT := i % 3 = 0, splitPAT := i % 4 = 1 })
     let bs := m.bytes
     let auto := i % 2 = 1
     let spec := tablePositions m [0, 0x1000, 0x1001] (·.sectionsEnd)
